@@ -35,7 +35,26 @@ fn allocated() -> u64 {
 
 // ----- hang watchdog -----------------------------------------------------------------
 
-static SLOTS: Mutex<Vec<Option<(Instant, Vec<u8>)>>> = Mutex::new(Vec::new());
+// Time is measured as CPU time of the thread that runs the input, not as wall-clock time: how
+// long a case takes on the wall depends on what else the machine is doing (a loaded or freshly
+// restored sandbox once pushed a 1 s case over a 2 s wall limit), CPU time of the one thread
+// does not. Wall-clock time is only a backstop for a thread that blocks without computing.
+const SLOW_CPU_SECS: f64 = 5.0;
+const HANG_CPU_SECS: f64 = 30.0;
+const HANG_WALL_SECS: u64 = 300;
+
+fn cpu_of(clock: libc::clockid_t) -> f64 {
+    let mut ts = libc::timespec { tv_sec: 0, tv_nsec: 0 };
+    // SAFETY: plain libc call with a valid out pointer
+    unsafe { libc::clock_gettime(clock, &mut ts) };
+    ts.tv_sec as f64 + ts.tv_nsec as f64 * 1e-9
+}
+fn thread_cpu() -> f64 {
+    cpu_of(libc::CLOCK_THREAD_CPUTIME_ID)
+}
+
+/// (wall start, cpu clock of the running thread, its cpu time at entry, input)
+static SLOTS: Mutex<Vec<Option<(Instant, libc::clockid_t, f64, Vec<u8>)>>> = Mutex::new(Vec::new());
 thread_local! {
     static SLOT: Cell<usize> = const { Cell::new(usize::MAX) };
 }
@@ -48,7 +67,11 @@ fn slot_enter(input: &[u8]) {
         }
         c.get()
     });
-    s[id] = Some((Instant::now(), input.to_vec()));
+    let mut clock: libc::clockid_t = 0;
+    // SAFETY: pthread_self is always valid for the calling thread
+    let rc = unsafe { libc::pthread_getcpuclockid(libc::pthread_self(), &mut clock) };
+    assert_eq!(rc, 0, "pthread_getcpuclockid");
+    s[id] = Some((Instant::now(), clock, cpu_of(clock), input.to_vec()));
 }
 fn slot_leave() {
     let mut s = SLOTS.lock().unwrap();
@@ -62,12 +85,13 @@ fn start_watchdog() {
         std::thread::sleep(std::time::Duration::from_millis(500));
         let s = SLOTS.lock().unwrap();
         for e in s.iter().flatten() {
-            if e.0.elapsed().as_secs() >= 20 {
+            let cpu = cpu_of(e.1) - e.2;
+            if cpu >= HANG_CPU_SECS || e.0.elapsed().as_secs() >= HANG_WALL_SECS {
                 // a case that does not come back: report it with its input and stop
                 let root = verif_root();
-                let digest = format!("{:016x}", h64(&e.1));
+                let digest = format!("{:016x}", h64(&e.3));
                 let path = format!("{root}/replays/C05-{}.json", &digest[..12]);
-                let body = json!({"property": "C05", "signature": "C05/hang", "what": "a single input did not finish within 20 s", "case": {"kind": "bytes", "bytes": e.1}});
+                let body = json!({"property": "C05", "signature": "C05/hang", "what": format!("a single input did not finish after {cpu:.0} s of CPU time ({} s wall)", e.0.elapsed().as_secs()), "case": {"kind": "bytes", "bytes": e.3}});
                 let _ = std::fs::write(&path, serde_json::to_string_pretty(&body).unwrap());
                 println!("VIOLATION property=C05 replay={path}");
                 println!("  signature: C05/hang");
@@ -307,7 +331,7 @@ impl SmClone for SourceMapHermes {
 /// Runs every entry point on `bytes`. Returns (violations, outcome class, decoded?).
 fn exercise(bytes: &[u8]) -> (Vec<(String, String)>, u64, bool) {
     let mut out = vec![];
-    let t0 = Instant::now();
+    let t0 = thread_cpu();
     slot_enter(bytes);
     let a0 = allocated();
     let dec = guarded(|| decode_slice(bytes));
@@ -368,9 +392,9 @@ fn exercise(bytes: &[u8]) -> (Vec<(String, String)>, u64, bool) {
         }
     }
     slot_leave();
-    let dt = t0.elapsed().as_secs_f64();
-    if dt > 2.0 {
-        out.push(("slow".into(), format!("one {}-byte input took {dt:.1} s", bytes.len())));
+    let dt = thread_cpu() - t0;
+    if dt > SLOW_CPU_SECS {
+        out.push(("slow".into(), format!("one {}-byte input took {dt:.1} s of CPU time", bytes.len())));
     }
     (out, class, decoded)
 }
